@@ -458,6 +458,14 @@ namespace probe {
          if (op == "var") { arity(3); auto& r = region(a[0]); auto& n = name(a[1]); auto& ty = type(a[2]); Track t; return of_decl(r.declare_var(n, ty)); }
          if (op == "field") { arity(3); auto& r = region(a[0]); auto& n = name(a[1]); auto& ty = type(a[2]); Track t; return of_decl(r.declare_field(n, ty)); }
          if (op == "typedecl") { arity(3); auto& r = region(a[0]); auto& n = name(a[1]); auto& ty = type(a[2]); Track t; return of_decl(r.declare_type(n, ty)); }
+         if (op == "ptmpl" or op == "stmpl") {
+            arity(3); auto& r = region(a[0]); auto& n = name(a[1]);
+            auto* fa = dynamic_cast<const ipr::Forall*>(&type(a[2]));
+            if (fa == nullptr) throw Malformed{};
+            Track t;
+            if (op == "ptmpl") return of_decl(r.declare_primary_template(n, *fa));
+            return of_decl(r.declare_secondary_template(n, *fa));
+         }
          if (op == "fundecl") {
             arity(3); auto& r = region(a[0]); auto& n = name(a[1]); auto& f = need(operand(a[2]).fun);
             Track t; return of_decl(r.declare_fun(n, f));
@@ -504,7 +512,7 @@ namespace probe {
 
       static bool opaque(const std::string& op)
       {
-         return op == "var" or op == "field" or op == "typedecl" or op == "fundecl" or op == "enum" or op == "enumerator";
+         return op == "var" or op == "field" or op == "typedecl" or op == "fundecl" or op == "ptmpl" or op == "stmpl" or op == "enum" or op == "enumerator";
       }
 
       // -- printing through ipr::Printer into a sink that never allocates
